@@ -78,6 +78,10 @@ def run(ck):
             from rules import C08
             C08.levelfilter_rule(ck, F, rid="C19.R5")
             r6_attribute_digits(ck)
+            # "reads back as exactly the value that was set" also after the next re-evaluation: the rebuild asks every live
+            # collector for its hint again (C01.R5, instantiated) -- none is dropped for what it said before
+            from rules import C01
+            C01.r5(ck, F, rid="C19.R4")
 
 
 # ------------------------------------------------------------------ R1
